@@ -150,12 +150,41 @@ def judge_supplied(ctx, g, inp):
                  inp, dict(dtypes=o["dtypes"]), None, clauses)
 
 
+def small_scope(ctx):
+    """random small tables: <= 5 faces of sizes 3..5 over <= 8 nodes, any numbering (faces with and
+    without neighbours interleaved, faces sharing only a corner, several shared edges); inputs that are
+    not manifold are filtered out by the Lean precondition"""
+    import itertools
+
+    rng = ctx.rng
+    N = 8
+    xyz = np.array([meshes._ll(41.0 * i - 170, 13.0 * i - 45) for i in range(N)])
+    done, tries = 0, 0
+    want = ctx.n(60, 1500)
+    while done < want and tries < 20 * want:
+        tries += 1
+        nf = rng.randint(2, 5)
+        fs = []
+        for _ in range(nf):
+            k = rng.choice([3, 3, 4, 5])
+            fs.append(rng.sample(range(N), k))
+        used = sorted({v for f in fs for v in f})
+        mp = {v: i for i, v in enumerate(used)}
+        m = meshes.AMesh([[mp[v] for v in f] for f in fs], xyz[used], False, "small-scope")
+        before = ctx.stats["pre-holds"]
+        judge(ctx, m, "small")
+        if ctx.stats["pre-holds"] > before:
+            done += 1
+
+
 def run(ctx):
     ctx.rule = ("meshes from harness/meshes.zoo (closed and partial, isolated faces, holes, valence 3..8, mixed sizes, random "
-                "renumbering) filtered by the Lean precondition Incidence.Pre; MPAS sample with file-supplied tables; distinct = "
+                "renumbering; archipelagos interleaving faces with and without neighbours) + random small tables (2..5 faces "
+                "over <= 8 nodes) filtered by the Lean precondition Incidence.Pre; MPAS sample with file-supplied tables; distinct = "
                 "distinct face-node table; non-trivial = more than one face")
     ctx.assumptions = ["dict/list/np.pad semantics of the Python loops are tied to the model only by this differential run",
                        "face_edge_connectivity / n_nodes_per_face are taken from the implementation (their correctness is C02)"]
+    small_scope(ctx)
     for rep in range(ctx.n(2, 10)):
         for m in meshes.zoo(ctx.rng, big=(ctx.thorough or ctx.escalate or rep == 0)):
             judge(ctx, m, m.kind)
